@@ -73,16 +73,16 @@ def run(ctx):
     harness_errors = []
 
     # ---- the three model-checking runs (each prints one CASE per finished behaviour)
-    kv = ctx.tlc("Store", ctx.pick("StoreKV.cfg", "StoreKVBig.cfg"), timeout=2400)
+    kv = ctx.tlc("Store", ctx.pick("StoreKV.cfg", "StoreKVBig.cfg"), timeout=2400, workers=4)
     hist = kv.lines.get("CASE", [])
     if not ctx.quick:
         # 5 entries with a single tag (the 2-tag space is covered up to 4 entries)
-        kv5 = ctx.tlc("Store", "StoreKV5.cfg", timeout=2400)
+        kv5 = ctx.tlc("Store", "StoreKV5.cfg", timeout=2400, workers=4)
         seen = {canon(h) for h in hist}
         hist += [h for h in kv5.lines.get("CASE", []) if canon(h) not in seen]
-    sq = ctx.tlc("Store", ctx.pick("StoreSeq.cfg", "StoreSeqBig.cfg"), timeout=1200)
+    sq = ctx.tlc("Store", ctx.pick("StoreSeq.cfg", "StoreSeqBig.cfg"), timeout=1200, workers=4)
     seqs = sq.lines.get("CASE", [])
-    st = ctx.tlc("Store", ctx.pick("StoreStrings.cfg", "StoreStringsBig.cfg"), timeout=1200)
+    st = ctx.tlc("Store", ctx.pick("StoreStrings.cfg", "StoreStringsBig.cfg"), timeout=1200, workers=4)
     strs = st.lines.get("CASE", [])
     if len(hist) < 2000 or len(seqs) < 4000 or len(strs) < 1000:
         raise Inconclusive("behaviour export too small: %d %d %d" % (len(hist), len(seqs), len(strs)))
